@@ -267,6 +267,28 @@ PROPS = {
                       'flattenings); every point checked against the definition of the normal construction',
         'level_note': 'lattice values only; reference implementation in engine/georef.hpp (long double)',
     },
+    'C02': {
+        'sources': GEODESY + ['src/geodesy/ENUConverter.cpp'],
+        'harness': 'c02_enu.cpp',
+        'flavour': 'asan',
+        'level': 'model_checking',
+        'engine': 'sequence',
+        'rule': 'L: full lattice anchor (lat incl. +-85 deg, lon incl. +-180 and +-179.999 deg, height) x local point (up to '
+                '100 km / 10 km) against the definition of the east/north/up frame in long double. S: every sequence of the '
+                '18 converter operations to the stated depth from 4 initial constructions, against a {anchored?, anchor} '
+                'model with reference ENU math; after every step the flag, anchor and transform must equal those of a fresh '
+                'converter anchored at the model anchor. states = distinct (flag, anchor, transform) bit patterns reached; '
+                'metrics_max.states_new_at_last_depth = 0 means the reachable set was already closed one level earlier. '
+                'non-trivial = anchors near the pole/antimeridian or off-axis points (L); any operation after the first (S).',
+        'assumptions': ['conversions that assert(isAnchored_) are only issued when the model says anchored (documented precondition)',
+                        'for the altitude-less toENU overload the oracle completes the point with the anchor altitude the converter reports'],
+        'tiers': {'quick': {'deadline': 300}, 'thorough': {'deadline': 3000, 'case_timeout': 600}},
+        'technique': 'exhaustive enumeration of converter operation sequences to a depth (reachable state set closed) with a reference model and fresh-object differential oracle, plus an exhaustive anchor/point lattice against the frame definition',
+        'level_text': 'all operation sequences up to depth 4 (thorough 5) from every construction form, which closes the '
+                      'reachable state set and tries every operation from every reachable state; frame orientation decided '
+                      'against the definition (east = z x up), not by round trips',
+        'level_note': 'finite anchor / point alphabets; GRS80 only (the converter has no other ellipsoid)',
+    },
 }
 
 ENGINES = [
